@@ -39,6 +39,45 @@ def pick_sites_faces(rng, G, N, n, min_sep):
     raise RuntimeError('cannot place sites')
 
 
+def sites_one_radius_from_faces(rng, G, N, sites, radius):
+    """Move some site coordinates to about one radius (0.7..1.5 r / |a_c|, fractional) from a cell face, on either side,
+    keeping the sites apart: the boundary class where an atom within the radius sits across the face."""
+    R = gen.image_range(G)
+    lens = [math.sqrt(G[i][i]) for i in range(3)]
+    out = [list(p) for p in sites]
+    flags = []
+    for i in range(len(out)):
+        for c in range(3):
+            if rng.random() < 0.5:
+                d = int(round(float(rng.uniform(0.85, 1.3)) * radius / lens[c] * N))
+                low = bool(rng.random() < 0.5)
+                cand = list(out[i])
+                cand[c] = d % N if low else (N - d) % N
+                if all(gen.min_image_sq(G, [cand[k] - out[j][k] for k in range(3)], N, R) >= (2 * radius + 0.3) ** 2 * N * N
+                       for j in range(len(out)) if j != i):
+                    out[i] = cand
+                    flags.append((i, c, -1 if low else 1, d))
+    return out, flags
+
+
+def crossing_offsets(G, N, flag, thr):
+    """Grid offsets from a flagged site that end on the far side of the face AND within the radius (norm_sq < thr)."""
+    i, c, sign, d = flag
+    res = []
+    m = 6
+    for extra in range(0, 4):
+        oc = sign * (d + extra)
+        for u in range(-m, m + 1):
+            for v in range(-m, m + 1):
+                o = [0, 0, 0]
+                o[c] = oc
+                o[(c + 1) % 3] = u
+                o[(c + 2) % 3] = v
+                if gen.norm_sq(G, o) < thr:
+                    res.append(o)
+    return res
+
+
 def pick_radius(rng, N, rmin, rmax, fractions):
     """Radius r with r^2 N^2 = Q + 0.5 (Q integer) and f^2 (Q+0.5) at least 0.05 from an integer for every f."""
     lo, hi = int(rmin * rmin * N * N), int(rmax * rmax * N * N)
@@ -54,7 +93,7 @@ def pick_radius(rng, N, rmin, rmax, fractions):
     raise RuntimeError('no radius')
 
 
-def positions_near(rng, G, N, sites, radii, T, A, visit=None, w_min=None):
+def positions_near(rng, G, N, sites, radii, T, A, visit=None, w_min=None, flags=()):
     """Grid positions [T][A] steered to lie inside / in the shell / just outside spheres of the visited sites."""
     lens = [math.sqrt(G[i][i]) for i in range(3)]
     pos = []
@@ -65,6 +104,15 @@ def positions_near(rng, G, N, sites, radii, T, A, visit=None, w_min=None):
             s = visit[int(rng.integers(0, len(visit)))]
             r = radii[s]
             band = rng.random()
+            mine = [f for f in flags if f[0] == s]
+            if mine and rng.random() < 0.5:
+                # an atom within the radius on the far side of the cell face next to this site
+                f = mine[int(rng.integers(0, len(mine)))]
+                offs = crossing_offsets(G, N, f, int(r * r * N * N))
+                if offs:
+                    o = offs[int(rng.integers(0, len(offs)))]
+                    row.append([(sites[s][i] + o[i]) % N for i in range(3)])
+                    continue
             for _ in range(400):
                 m = [max(1, int(math.ceil(1.7 * r * N / lens[i]))) for i in range(3)]
                 o = [int(rng.integers(-m[i], m[i] + 1)) for i in range(3)]
@@ -107,13 +155,17 @@ def make_case(rng, b, fam, orient, mode, fractions=(1.0, 0.75, 0.5, 0.25), N=N_D
         radii = [rA if lab == 'A' else rB for lab in labels]
         kw_radius = {'A': float(rA), 'B': float(rB)}
     T, A = int(rng.integers(2, 7)), int(rng.integers(1, 5))
+    nearface = bool(rng.random() < 0.5)
+    flags = ()
+    if nearface:
+        sites, flags = sites_one_radius_from_faces(rng, G, N, sites, max(radii))
     visit = None
     if mode == 'dict-unvisited':
         # only the last member of group A and the last of group B are ever approached
         lastA = max(i for i, lab in enumerate(labels) if lab == 'A')
         lastB = max(i for i, lab in enumerate(labels) if lab == 'B')
         visit = [lastA, lastB]
-    pos = positions_near(rng, G, N, sites, radii, T, A, visit)
+    pos = positions_near(rng, G, N, sites, radii, T, A, visit, flags=flags)
     shifts = rng.integers(-2, 3, size=(T, A, 3))
     coords = np.array(pos, dtype=float) / N + shifts
     traj = Trajectory(species=[Species(species)] * A, coords=coords, lattice=lattice, time_step=1e-15,
@@ -124,7 +176,7 @@ def make_case(rng, b, fam, orient, mode, fractions=(1.0, 0.75, 0.5, 0.25), N=N_D
     rec = {'b': b, 'G': G, 'N': N, 'R': R, 'sites': sites, 'thr': thr, 'thrIn': thr_in, 'pos': pos,
            'auto': False, 'raised': False, 'tooClose': False,
            'meta': {'family': fam, 'orientation': orient, 'mode': mode, 'inner_fraction': f, 'radius': kw_radius,
-                    'labels': labels}}
+                    'labels': labels, 'nearface': nearface}}
     return rec, traj, structure, dict(site_radius=kw_radius, site_inner_fraction=f)
 
 
